@@ -44,6 +44,14 @@ def multi(rng, collide):
             for c, cb in enumerate(d["cbs"], start=1):
                 if cb.get("ret", "none") != "none":
                     cb["ret"] = f"r{c}"
+        # events declared as class attributes (go = a.to(b) | ...) where the event lists allow it, by event= otherwise
+        order = []
+        for t in d["trans"]:
+            for e in t["evs"]:
+                if e not in order:
+                    order.append(e)
+        if rng.random() < 0.5 and all([order.index(e) for e in t["evs"]] == sorted(order.index(e) for e in t["evs"]) for t in d["trans"]):
+            d["evstyle"], d["evorder"] = "attr", order
         classes.append(d)
     steps = []
     lazy = [k for k in range(2, ncls + 1) if rng.random() < 0.6]
@@ -69,6 +77,10 @@ def multi(rng, collide):
         elif slots:
             i = rng.choice(list(slots))
             d = classes[slots[i] - 1]
+            if rng.random() < 0.08:
+                # somebody tries the declaration API on this instance's event handle; instances created later are unimpressed
+                steps.append({"op": "call", "i": i, "api": "decorate_bound", "ev": rng.choice(d["evlist"])})
+                continue
             steps.append({"op": "call", "i": i, "api": rng.choice(["send", "event"]), "ev": rng.choice(d["evlist"]),
                           "gv": gen.rand_gv(rng)})
     # classes never instantiated still need their class step
